@@ -117,6 +117,12 @@ def env_property(pid, tier, seed, only=None):
             roll_viol.append({"property": "C02", "env": rec["env"], "monitor": "rollout-" + f[1],
                               "inst": {k: rec[k] for k in ("env", "B", "steps", "bound", "note")}, "actions": [],
                               "detail": "iteration %s: minmask %s ndone %s" % (f[2], rec["minmask"][:40], rec["ndone"][:40])})
+    if pid == "C06" and not only:
+        # the checkers of the improvement environments (k-opt TSP, PDP ruin-repair) read td["rec_best"]
+        from harness.props import c09
+        v6, n6 = c09.c06_violations(tier, seed)
+        roll_viol += v6
+        extra_note["improvement_env_checkers"] = {"cases": n6, "violations": len(v6)}
     viol = [v for r in results for v in r.violations] + roll_viol
     for r in results:
         for d in r.drift[:5]:
